@@ -213,6 +213,32 @@ def run(ck):
             ck.violation(f'xRFM fitted with categorical_info predicts differently from the same fit on the dense one-hot columns: max dev {dev:.3g} '
                          f'(kernel {kern}, levels {levels}, {nnum} numerical, {nout} outputs)', dict(kernel=kern, levels=levels, nnum=nnum, nout=nout, bandwidth_mode=bwm, dev=dev),
                          key=json.dumps(dict(site='model-categorical', kernel=kern, bw=bwm)))
+    # ---- many rows in one call (more than any internal row batch: 10,050 x-rows), numerical and categorical columns: every row must still equal the dense evaluation
+    for kn_b, p_b, q_b in (('l2', 2.0, 1.0), ('lpq', 1.5, 1.0)):
+        nnum, levels = 2, [3, 2]
+        d = nnum + sum(levels)
+        nbig = 10_050
+        def rows_b(k):
+            R = np.zeros((k, d)); R[:, :nnum] = rng.standard_normal((k, nnum)); o = nnum
+            for lv in levels:
+                lab = rng.integers(0, lv, size=k); R[np.arange(k)[:, None], (o + np.arange(lv))[None, :]] = np.eye(lv)[lab]; o += lv
+            return R
+        Xb, Zb = rows_b(nbig), rows_b(3)
+        matb = np.abs(rng.standard_normal(d)) + 0.3
+        mkb = (lambda: K.LaplaceKernel(bandwidth=2.0, exponent=q_b)) if kn_b == 'l2' else (lambda: K.LpqLaplaceKernel(bandwidth=2.0, p=p_b, q=q_b))
+        dense_b, fast_b = mkb(), mkb()
+        o = nnum; cidx = []
+        for lv in levels:
+            cidx.append(torch.arange(o, o + lv)); o += lv
+        fast_b.set_categorical_indices(torch.arange(nnum), cidx, [torch.eye(lv, dtype=torch.float64) for lv in levels], device='cpu')
+        with xr.quiet():
+            Kd_b = dense_b.get_kernel_matrix(T(Xb), T(Zb), T(matb)).numpy(); Kf_b = fast_b.get_kernel_matrix(T(Xb), T(Zb), T(matb)).numpy()
+        dv = np.abs(Kd_b - Kf_b).max(axis=1)
+        ck.case(dict(kind='big-x', kernel=kn_b, rows=nbig), nontrivial=True); ck.count('categorical fast path on 10,050 rows')
+        if dv.max() > 1e-9:
+            r = int(dv.argmax())
+            ck.violation(f'{kn_b}: categorical fast path differs from dense evaluation by {dv.max():.3g} at row {r} of a {nbig}-row call (rows 0..{nbig - 1}; first bad row {int((dv > 1e-9).argmax())}): '
+                         f'fast {Kf_b[r].tolist()} vs dense {Kd_b[r].tolist()}', dict(kernel=kn_b, row=r, rows=nbig, x=Xb[r].tolist()), key=json.dumps(dict(site='fast-vs-dense-big', kernel=kn_b)))
     res = ck.run_lemma_files('cat', kreal.RHEADER, lemmas, shard=3, timeout=900)
     bad = [lmeta[k] for k, v in res.items() if not v]
     ck.obligation(f'correspondence: {len(lemmas)} fast-path kernel entries within tolerance of the Coq dense op-sequence model on the one-hot rows (interval-certified)',
